@@ -14,7 +14,7 @@ Context {V : Type} (o : ops V).
 Theorem C08_null_keys op skip_na gk vals ng mask :
   length vals = length gk -> length (mask_list (length gk) mask) = length gk ->
   filter_by (nonnull_key gk) (cumulative o op skip_na gk vals ng mask)
-  = kscan (cum_init o op, 0) (cum_step (reducer_of o (cum_reducer op skip_na))) (cum_na o op)
+  = kscan (cum_init o op, 0) (cum_step (reducer_of o (cum_reducer false op skip_na))) (cum_na o op)
           (filter (fun r : Z * (V * bool) => 0 <=? fst r) (mk_rows gk vals mask)) (repeat (cum_init o op, 0) ng).
 Proof. exact (null_rows_irrelevant _ _ _ _ _ _ gk vals ng mask). Qed.
 
@@ -25,7 +25,7 @@ Theorem C08_mask_is_filter op skip_na gk vals ng m :
   filter_by m (cumulative o op skip_na gk vals ng (Some m))
   = cumulative o op skip_na (filter_by m gk) (filter_by m vals) ng None.
 Proof.
-  exact (mask_is_filter _ _ _ (cum_init o op, 0) (cum_step (reducer_of o (cum_reducer op skip_na))) (cum_na o op)
+  exact (mask_is_filter _ _ _ (cum_init o op, 0) (cum_step (reducer_of o (cum_reducer false op skip_na))) (cum_na o op)
            gk vals ng m (fun s v => eq_refl)).
 Qed.
 End C08.
@@ -82,7 +82,7 @@ Print Assumptions C08_cumcount.
 Theorem C08_every_row {V} (o : ops V) op skip_na gk vals ng mask i k v sel :
   nth_error (mk_rows gk vals mask) i = Some (k, (v, sel)) -> 0 <= k -> (Z.to_nat k < ng)%nat ->
   nth i (cumulative o op skip_na gk vals ng mask) (null o) =
-    fst (series (reducer_of o (cum_reducer op skip_na))
+    fst (series (reducer_of o (cum_reducer false op skip_na))
            (earlier gk vals mask k i ++ (if sel then [v] else [])) (cum_init o op, 0)).
 Proof. exact (cumulative_row o op skip_na gk vals ng mask i k v sel). Qed.
 Print Assumptions C08_every_row.
@@ -100,19 +100,30 @@ Print Assumptions C08_cumsum_every_row.
 Theorem C08_cumulative_is_prefix_reduction_float op gk (vals : list fl) ng mask :
   length vals = length gk -> wf_mask (length gk) mask -> (forall k, In k gk -> k < Z.of_nat ng) ->
   cumulative fops op true gk vals ng mask = cum_spec fops op gk vals mask.
-Proof. exact (cumulative_is_cum_spec fops fops_laws op gk vals ng mask). Qed.
-Theorem C08_cumulative_is_prefix_reduction_int nullable nullv op gk (vals : list Z) ng mask :
+Proof. exact (cumulative_is_cum_spec fops fops_laws false op gk vals ng mask). Qed.
+(* integers and (temporal = true) timestamps / timedeltas viewed as integers with the NaT sentinel *)
+Theorem C08_cumulative_is_prefix_reduction_int temporal nullable nullv op gk (vals : list Z) ng mask :
   length vals = length gk -> wf_mask (length gk) mask -> (forall k, In k gk -> k < Z.of_nat ng) ->
-  cumulative (zops nullable nullv) op true gk vals ng mask = cum_spec (zops nullable nullv) op gk vals mask.
-Proof. exact (cumulative_is_cum_spec _ (zops_laws nullable nullv) op gk vals ng mask). Qed.
-(* skip_na = False (floats): a NaN makes the running sum NaN from there on *)
+  cumulative_t (zops nullable nullv) temporal op true gk vals ng mask = cum_spec (zops nullable nullv) op gk vals mask.
+Proof. exact (cumulative_is_cum_spec _ (zops_laws nullable nullv) temporal op gk vals ng mask). Qed.
+(* skip_na = False on numeric columns: floats — a NaN makes the running sum NaN from there on;
+   plain integers — every value is added (they hold no nulls; no sentinel is looked at) *)
 Theorem C08_cumsum_noskip_float gk (vals : list fl) ng mask :
   length vals = length gk -> wf_mask (length gk) mask -> (forall k, In k gk -> k < Z.of_nat ng) ->
   cumulative fops CSum false gk vals ng mask = cumsum_noskip_spec fops gk vals mask.
-Proof. exact (cumsum_noskip_is_spec fops fops_laws fops_sum_closed fops_null_unique gk vals ng mask). Qed.
+Proof. exact (cumsum_noskip_is_spec fops fops_laws fops_null_unique fops_add_null gk vals ng mask). Qed.
+Theorem C08_cumsum_noskip_int nullv gk (vals : list Z) ng mask :
+  length vals = length gk -> wf_mask (length gk) mask -> (forall k, In k gk -> k < Z.of_nat ng) ->
+  cumulative (zops false nullv) CSum false gk vals ng mask = cumsum_noskip_spec (zops false nullv) gk vals mask.
+Proof.
+  exact (cumsum_noskip_is_spec _ (zops_laws false nullv) (zops_null_unique false nullv)
+           (fun a b (H : false = true \/ false = true) => match H with or_introl e | or_intror e => False_ind _ (Bool.diff_false_true e) end)
+           gk vals ng mask).
+Qed.
 Print Assumptions C08_cumulative_is_prefix_reduction_float.
 Print Assumptions C08_cumulative_is_prefix_reduction_int.
 Print Assumptions C08_cumsum_noskip_float.
+Print Assumptions C08_cumsum_noskip_int.
 
 Example C08_example :
   cumulative (zops true 0) CMax true [0; 1; 0; -1; 0] [5; 100; MIN_INT; 100; 7] 2 None = [5; 100; 5; MIN_INT; 7].
